@@ -1016,6 +1016,16 @@ func (runInfo *runInfoStruct) runChanStmt(stmt *ast.ChanStmt) {
 		runInfo.expr = stmt.OkExpr
 		runInfo.invokeLetExpr()
 		// TODO: ok to ignore error?
+		if runInfo.err != nil {
+			select {
+			case <-runInfo.ctx.Done():
+				// an interruption while the ok target was evaluated is not an error of that target to ignore
+				runInfo.rv = nilValue
+				runInfo.err = ErrInterrupt
+				return
+			default:
+			}
+		}
 	}
 
 	if ok {
